@@ -832,10 +832,16 @@ def Array(
         def _decode_all(cls, stream):
             _array = []
             while True:
+                position = stream.tell()
                 try:
                     _array.append(cls.element_type.decode(stream))
                 except BufferEmptyError:
                     break
+                if stream.tell() == position:
+                    # an element decoded from no bytes never exhausts the buffer: the loop would not end
+                    raise DataError(
+                        f"{cls.element_type!r} decodes from zero bytes, an unbounded array of it has no end"
+                    )
             return _array
 
         @classmethod
